@@ -101,7 +101,12 @@ IterOK(e) == Cardinality(ToSet(e.opcodes)) = Len(e.opcodes) /\ ToSet(e.opcodes) 
 EntryOK(e) ==
   LET en == e.entry  key == ToString(en.opcode) IN
   /\ key \in DOMAIN TableOf(e.table)
-  /\ en = TableOf(e.table)[key]                 \* name, opcode, capabilities, extensions, operand kinds and quantifiers
+  \* name, opcode, operand kinds and quantifiers in order; capabilities and extensions as SETS (the grammar lists
+  \* alternatives, their order carries no meaning)
+  /\ LET g == TableOf(e.table)[key] IN
+       /\ en.name = g.name /\ en.opcode = g.opcode /\ en.ops = g.ops
+       /\ ToSet(en.caps) = ToSet(g.caps) /\ ToSet(en.exts) = ToSet(g.exts)
+       /\ DOMAIN en = DOMAIN g
   /\ WellFormed(en.ops)
   /\ \A j \in 1..Len(en.ops) : en.ops[j].k \in Kinds /\ en.ops[j].q \in {"One", "ZeroOrOne", "ZeroOrMore"}
   /\ (e.table = "insts" /\ en.name \in DOMAIN InstAnchors =>
@@ -121,7 +126,7 @@ ReflectOK(e) ==
   THEN LET v == G.kinds[e.kind].values IN
        /\ e.key \in DOMAIN v
        /\ e.params = v[e.key].params           \* "the same sequence for an enumerant"
-       /\ e.caps = v[e.key].caps /\ e.exts = v[e.key].exts
+       /\ ToSet(e.caps) = ToSet(v[e.key].caps) /\ ToSet(e.exts) = ToSet(v[e.key].exts)
   ELSE /\ IsDeclaredMask(e.kind, e.value)
        /\ SameBag(e.params, MaskParams(e.kind, e.value))        \* "the same multiset for a bit-mask"
        /\ ToSet(e.caps) = (IF e.value = Zero THEN ToSet(e.caps) ELSE BitsCaps(e.kind, e.value, 1, "caps"))
